@@ -210,6 +210,37 @@ fn main() {
             let code = proc::worker_main(&args[2..]);
             std::process::exit(code);
         }
+        Some("gen-corpus") => {
+            props_misc::gen_corpus(std::path::Path::new(args.get(2).expect("harness: usage: vcheck gen-corpus <dir>")));
+            std::process::exit(0);
+        }
+        Some("replay-bytes") => {
+            // a libFuzzer artifact: raw bytes, judged by the in-process C16 oracle
+            let data = std::fs::read(args.get(2).expect("harness: usage: vcheck replay-bytes <file>")).expect("harness: read artifact");
+            let case = serde_json::json!({ "Bytes": { "data": data } });
+            let code = match guarded(|| props_misc::replay_c16(case.clone())) {
+                Ok(_) => {
+                    // the in-process oracle does not fail on it: also try it as a path string
+                    let s = String::from_utf8_lossy(&data).to_string();
+                    match guarded(|| props_misc::replay_c16(serde_json::json!({ "Path": { "s": s } }))) {
+                        Ok(_) => {
+                            println!("REPLAY-PASS property=C16 file={}", args[2]);
+                            0
+                        }
+                        Err(f) => {
+                            println!("VIOLATION property=C16 replay={}\n  signature: {}\n  detail: {}", args[2], f.sig, f.detail);
+                            1
+                        }
+                    }
+                }
+                Err(f) => {
+                    println!("VIOLATION property=C16 replay={}\n  signature: {}\n  detail: {}", args[2], f.sig, f.detail);
+                    1
+                }
+            };
+            common::remove_own_scratch();
+            std::process::exit(code);
+        }
         Some("lockprobe") => {
             let code = props_c11::lockprobe_main(&args[2..]);
             std::process::exit(code);
